@@ -209,6 +209,9 @@ func (in *interp) structOf(name string, e *env, f *Func) *StructDef {
 			if s.K == SVar && s.Name == name && s.T != nil && s.T.K == KStruct {
 				return in.p.Struct(s.T.S)
 			}
+			if s.K == SDefine && s.Name == name && s.E != nil && s.E.Op == EComposite && s.E.T.K == KStruct {
+				return in.p.Struct(s.E.T.S)
+			}
 			for _, sub := range [][]*Stmt{s.Then, s.Else, s.Body} {
 				if sd := find(sub); sd != nil {
 					return sd
@@ -291,6 +294,12 @@ func (in *interp) eval(x *Expr, e *env) Value {
 			args = append(args, in.eval(a, e))
 		}
 		return in.call(in.fn(x.Name), args)[0]
+	case EComposite:
+		var v Value
+		for _, a := range x.A {
+			v.Elems = append(v.Elems, in.eval(a, e).Copy())
+		}
+		return v
 	case EUn:
 		a := in.eval(x.A[0], e)
 		switch x.Name {
